@@ -100,8 +100,7 @@ def _agg_fields(F, X, b, adt):
     return out
 
 
-def w_wiring(F, X, rep, b, fn):
-    rid = "C19-W"
+def w_wiring(F, X, rep, b, fn, rid="C19-W"):
     rep.rule(rid, "each parameter is cp.option(expected option) through checked conversions only")
     aggs = {}
     for adt in ("htlc_manager::HtlcManagerParams", "messages::TrampolineRoutingPolicy"):
@@ -140,7 +139,7 @@ def w_wiring(F, X, rep, b, fn):
         bi, s, d = aggs["htlc_manager::HtlcManagerParams"]
         rp = d.get("routing_policy")
         ok = rp is not None and all(a[0] == "agg" and a[1] == "messages::TrampolineRoutingPolicy" for a in alts(rp))
-        rep.ob("C19-D", ok, fn, "params.routing_policy is the policy built from the options", where=loc(s["sp"]), how="same aggregate", detail="" if ok else "params.routing_policy is %s" % show(rp)[:100])
+        rep.ob("C19-D" if rid == "C19-W" else rid, ok, fn, "params.routing_policy is the policy built from the options", where=loc(s["sp"]), how="same aggregate", detail="" if ok else "params.routing_policy is %s" % show(rp)[:100])
         lp = d.get("local_pubkey")
         okl = lp is not None and all(a[0] == "field" and a[1] == "id" and any(y[0] == "call" and y[1] == "rpc::ClnRpc::get_info" for y in walk(a)) for a in alts(lp))
         rep.ob(rid, okl, fn, "local_pubkey <- getinfo.id", where=loc(s["sp"]), how=show(lp)[:60] if lp else "?", detail="" if okl else "local_pubkey is %s" % (show(lp)[:80] if lp else "?"))
